@@ -13,7 +13,7 @@ import (
 )
 
 // acceptedFeeParams: arbitrary fee parameters accepted by the module's own validator.
-func acceptedFeeParams() *api.FeeParams {
+func zzvAcceptedFeeParams() *api.FeeParams {
 	fp := &api.FeeParams{BuyerPercentageFee: zz.NondetAtom("buyer_fee"), SellerPercentageFee: zz.NondetAtom("seller_fee")}
 	zz.Assume(zz.Merged(func() bool {
 		var g markettypes.FeeParams
@@ -25,7 +25,7 @@ func acceptedFeeParams() *api.FeeParams {
 
 // symbolic purchase: a positive integer ask amount and a positive quantity with at most 6
 // decimal places (what BuyDirect passes to the cost functions)
-func purchase() (sdkmath.Int, math.Dec) {
+func zzvPurchase() (sdkmath.Int, math.Dec) {
 	// the truncation helper is checked path by path in C19; here its paths are merged
 	zz.MergeCallee("(github.com/regen-network/regen-ledger/types/v2/math.Dec).SdkIntTrim")
 	var ask sdkmath.Int
@@ -43,8 +43,8 @@ func purchase() (sdkmath.Int, math.Dec) {
 
 // C07 (cost kernel): amounts are exact / truncated as the property states.
 func VerifHarness_C07_CostKernel() {
-	ask, q := purchase()
-	fp := acceptedFeeParams()
+	ask, q := zzvPurchase()
+	fp := zzvAcceptedFeeParams()
 	rb, rs := zz.QParse(fp.BuyerPercentageFee), zz.QParse(fp.SellerPercentageFee)
 	// fee rates within the bounds of this run; the zero rate and rates above 1 are the subject of C18
 	zz.Assume(zz.And(zz.QLt(zz.QInt(0), rb), zz.QLe(rb, zz.QInt(1))))
@@ -88,8 +88,8 @@ func VerifHarness_C07_CostKernel() {
 // whose own preconditions hold go through: no error from the fee computations and no
 // negative payment (sdk.NewCoin panics on a negative amount).
 func VerifHarness_C18_FeeParamsUse() {
-	ask, q := purchase()
-	fp := acceptedFeeParams()
+	ask, q := zzvPurchase()
+	fp := zzvAcceptedFeeParams()
 	subtotal, err := getSubTotalCost(ask, q)
 	zz.Assume(err == nil)
 	_, buyerFee, err := getTotalCostAndBuyerFee(subtotal, fp)
